@@ -278,6 +278,11 @@ func parseRules(rules []rule, prefixName string) (map[string]*v3rbacpb.Policy, e
 			return nil, fmt.Errorf("%d: %v", i, err)
 		}
 		policyName := prefixName + "_" + rule.Name
+		if _, ok := policies[policyName]; ok {
+			// Policies are keyed by name: a second rule with the same name
+			// would silently replace (and thereby drop) the first one.
+			return nil, fmt.Errorf(`%d: duplicate rule "name" %q`, i, rule.Name)
+		}
 		policies[policyName] = &v3rbacpb.Policy{
 			Principals:  []*v3rbacpb.Principal{parsePeer(rule.Source)},
 			Permissions: []*v3rbacpb.Permission{permission},
